@@ -15,6 +15,7 @@ from gcmpy.motif_generators.diamond_motif import diamond_motif
 
 from .simrandom import SimFault
 from .engine import describe_exc
+from . import interesting
 
 SHUFFLES = ("uniform", "identity", "reverse", "rot", "adjswap", "sorted_blocks")
 
@@ -124,11 +125,14 @@ def gen_scenario(prng, tier, index, focus):
     variant = "faults" if index % 3 == 2 else "clean"
     algo = prng.choice(("fast", "network", "motifs", "motifs") if focus == "C02" else ("fast", "network", "motifs"))
     n = prng.randrange(1, 41 if big else 13)
+    if prng.random() < 0.03:
+        n = interesting.size(prng, 1, 1025)                 # boundary vertex counts (most vertices then have degree zero)
+    many_tops = prng.random() < 0.03
     sc = {"variant": variant, "algo": algo, "via": prng.choice(("direct", "factory")),
           "rows": prng.choice(("tuple", "list")), "n": n}
     cols = []
     if algo in ("fast", "network"):
-        ntop = prng.randrange(1, 5)
+        ntop = prng.randrange(1, 5) if not many_tops else prng.randrange(5, 10)
         topos = []
         names_pool = ["2-clique", "3-clique", "t-a", "cycle", "2-clique-blue", "x", "3-clique"]
         for k in range(ntop):
@@ -137,10 +141,12 @@ def gen_scenario(prng, tier, index, focus):
             m["name"] = topos[0]["name"] if same_name else f"{prng.choice(names_pool)}#{k}"
             topos.append(m)
             count = prng.randrange(0, 5 if not big else (9 if not huge else 40))
+            if prng.random() < 0.02 and m["size"] <= 6:
+                count = interesting.size(prng, 5, 342)      # boundary motif counts / a vertex of very high degree
             cols.append(_distribute(prng, count * m["size"], n, prng.choice(("all", "few", "one"))))
         sc["topos"] = topos
     else:
-        nm = prng.randrange(1, 4)
+        nm = prng.randrange(1, 4) if not many_tops else prng.randrange(4, 8)
         motifs = []
         for j in range(nm):
             spec = dict(prng.choice(CUSTOM_CATALOGUE))
